@@ -247,6 +247,32 @@ def run(ctx):
                     "observed": o, "replay_cmd": "bin/check C01 --replay <this file>"})
                 if not any(f["key"] == "chunkgen" for f in ctx.findings):
                     ctx.findings.append({"key": "chunkgen", "what": why, "replay": path})
+    # the head of a pass over the WIDEST subnets (/0../3: the largest rows of the group table, arithmetic next to 2^32 and
+    # products above 2^63) through the real ip generator; judged is what the property says about every prefix of a pass
+    if ctx.harness_build("c01"):
+        ok, _ = ctx.harness_run("c01", ["-out", "wideprefix.jsonl", "-seed", ctx.seed, "-wideprefix", 6 if quick else 48], timeout=1800)
+        for o in (ctx.read_jsonl(os.path.join(ctx.work, "wideprefix.jsonl")) if ok else []):
+            ctx.count("wideprefix:/%s" % o["subnet"].split("/")[1], ("wideprefix", o["id"]), nontrivial=o["got"] > 1000,
+                      sample={"kind": "wideprefix", "subnet": o["subnet"], "math_rand_seed": o["rand_seed"], "addresses_checked": o["got"]})
+            ctx.cov["traces_validated_against_impl"] += 1
+            why = None
+            if o["repeated_at"] >= 0:
+                why = "%s is named twice (as address number %d and again as number %d of the pass)" % (o["repeated"], o["first_at"] + 1, o["repeated_at"] + 1)
+            elif o["outside_at"] >= 0:
+                why = "address number %d of the pass, %s, is not an address of the subnet" % (o["outside_at"] + 1, o["outside"])
+            elif o["err"]:
+                why = "the generator fails: " + o["err"]
+            elif o["ended"]:
+                why = "the pass ends after %d of the 2^%d addresses" % (o["got"], 32 - int(o["subnet"].split("/")[1]))
+            if why:
+                why = "ip generator on %s with math/rand seeded %d (one pass, the first %d addresses looked at): %s" % (
+                    o["subnet"], o["rand_seed"], o["want"], why)
+                path = ctx.write_replay("wideprefix-%s" % o["id"].replace(":", "-"), {
+                    "property": "C01", "what": why, "input": {"kind": "wideprefix", "subnet": o["subnet"], "math_rand_seed": o["rand_seed"],
+                                                              "harness": "c01 -wideprefix N -seed %d" % ctx.seed, "id": o["id"]},
+                    "observed": o})
+                if not any(f["key"] == "wideprefix" for f in ctx.findings):
+                    ctx.findings.append({"key": "wideprefix", "what": why, "replay": path})
     for o in rows:
         cls = "%s:%s" % (o["kind"], o["class"])
         ctx.count(cls, (o["kind"], o["case_seed"]), nontrivial=nontrivial(o),
@@ -322,6 +348,15 @@ def replay(ctx, path):
         return 1
     if not ctx.harness_build("c01"):
         return 1
+    if i["kind"] == "wideprefix":
+        seed, idx = i["id"].split(":")[1:3]
+        runseed = (int(seed) - 17 - int(idx) * 7919) // 1000003
+        ctx.harness_run("c01", ["-out", "one.jsonl", "-seed", runseed, "-wideprefix", int(idx) + 1], timeout=900)
+        rows = [o for o in ctx.read_jsonl(os.path.join(ctx.work, "one.jsonl")) if o["id"] == i["id"]]
+        bad = [o for o in rows if o["repeated_at"] >= 0 or o["outside_at"] >= 0 or o["err"] or o["ended"]]
+        print(json.dumps(rows[-1] if rows else {}, indent=1))
+        print("replay: the property %s on this input" % ("FAILS" if bad or not rows else "holds"))
+        return 1 if bad or not rows else 0
     if i["kind"] == "e2e":
         ctx.seed = i["seed"]
         rows = run_e2e(ctx, i["index"] + 1)
